@@ -197,3 +197,6 @@ func nsecCoversOracle(owner, next, name [][]byte) bool {
 	}
 	return no > 0 || nn < 0
 }
+
+// entBelow: next lies strictly below name — name is an empty non-terminal, it exists (RFC 4592 §3.3.1).
+func entBelow(next, name [][]byte) bool { return len(next) > len(name) && underOrEqual(next, name) }
